@@ -336,12 +336,8 @@ class QuicConn:
             for i in range(pn_len):
                 pkt[pn_off + i] ^= mask[1 + i]
             if kind == "app" and not dcid and any(c and bytes(pkt[1:1 + len(c)]) == c for c in self.all_cids()):
-                # open finding F31: a short-header packet with a zero-length DCID whose first protected bytes spell another
-                # (short) connection ID of the connection.  A sender may pad freely, so the generator avoids the coincidence.
-                if not self.spec.get("allow_cid_coincidence"):
-                    self.excluded += 1
-                    frames = b"\x00" + frames
-                    continue
+                # a short-header packet with a zero-length DCID whose first protected bytes spell another (short) connection
+                # ID of the connection (former finding F31, fixed): recorded as a feature so that checks can aim at it
                 self.features.add("cid_coincidence")
             break
         self.pkt_log.append({"srv": srv, "kind": kind, "pn": pn, "pn_len": pn_len, "gen": gen, "key": keys.key, "iv": keys.iv, "hp": keys.hp})
@@ -368,7 +364,12 @@ class QuicConn:
         if not nsplit:
             return [(f_crypto(0, data), ("c", data))]
         nsplit = min(nsplit, len(data) - 1)
-        cuts = sorted(self.rnd.sample(range(1, len(data)), nsplit))
+        if self.spec.get("split_chunk"):
+            # real stacks cut CRYPTO data at fixed (MTU-derived) offsets, the same for every connection
+            ch = self.spec["split_chunk"]
+            cuts = [k * ch for k in range(1, nsplit + 1) if k * ch < len(data)] or [len(data) // 2]
+        else:
+            cuts = sorted(self.rnd.sample(range(1, len(data)), nsplit))
         parts, prev = [], 0
         for c in cuts + [len(data)]:
             parts.append((prev, data[prev:c]))
